@@ -208,8 +208,11 @@ func (hc *HashChain) Fill(argb []uint32, quality int, xsize, ysize int, lowEffor
 	}
 
 	// Decide between parallel and serial second pass.
+	// The choice between the two second passes must depend on the image only
+	// (they are different algorithms and give different matches); with a
+	// single CPU the range-split pass simply runs with one worker.
 	numWorkers := runtime.GOMAXPROCS(0)
-	if numWorkers > 1 && size > 50000 && !lowEffort {
+	if size > 50000 && !lowEffort {
 		hc.fillParallel(argb, xsize, size, iterMax, winSize, numWorkers)
 	} else {
 		hc.fillSerial(argb, xsize, size, iterMax, lowEffort, winSize)
